@@ -59,7 +59,7 @@ ASSUMPTIONS = [
     'frame delays are not checked (not part of the statement)',
     'with sna2img, a macro crop specification is combined with -f/-r only when these are 0 (the interplay is undocumented)',
 ]
-MIN_NONTRIVIAL = {'quick': 8000, 'thorough': 150000}
+MIN_NONTRIVIAL = {'quick': 2500, 'thorough': 60000}
 
 ENCODERS = ('_build_image_data_bd_any', '_build_image_data_bd0', '_build_image_data_bd1_nt', '_build_image_data_bd1_at',
             '_build_image_data_bd2_nt', '_build_image_data_bd2_at', '_build_image_data_bd4_nt')
